@@ -180,6 +180,12 @@ func DrawProfile(property, tier string, r *PRNG) *Profile {
 		p.AvoidKnown = r.Chance(0.75)
 		core("BasketCreate", "Put", "Sell", "DefineResolver", "Anchor", "Attest", "RegisterResolver", "BridgeReceive", "Mint")
 		p.PCrash, p.PTorn = 0, 0
+		if r.Chance(0.25) {
+			// colliding data ids: ids of several lengths in one exported state
+			hl := r.Range(2, 8)
+			p.Hasher = &HasherCfg{Kind: "weak", Outputs: r.Range(1, 3), HashLen: hl, MinLength: r.Range(1, hl)}
+			scale(p.Weights, dataKinds, 4)
+		}
 	case "C10":
 		p.PCrash = Pick(r, []float64{0.05, 0.15, 0.3})
 		p.PTorn = Pick(r, []float64{0.05, 0.15, 0.3})
